@@ -302,7 +302,7 @@ func (p *parser) term() (*Term, error) {
 // opNames: operator and builtin names (terms with Op "op"); every other applied name is a call.
 var opNames = map[string]bool{"not": true, "neg": true, "eq": true, "ne": true, "lt": true, "le": true, "gt": true, "ge": true,
 	"add": true, "sub": true, "mul": true, "quo": true, "rem": true, "and": true, "or": true, "xor": true, "shl": true, "shr": true, "andnot": true,
-	"idx": true, "elem": true, "lookup": true, "slice": true, "list": true, "next": true, "range": true, "each": true, "has": true, "alt": true,
+	"idx": true, "elem": true, "lookup": true, "slice": true, "list": true, "next": true, "range": true, "each": true, "has": true, "alt": true, "non": true,
 	"len": true, "cap": true, "append": true, "recover": true, "copy": true, "delete": true, "min": true, "max": true, "new": true, "make": true,
 	"panic": true, "print": true, "println": true, "close": true, "complex": true, "real": true, "imag": true, "clear": true, "ssa:wrapnilchk": true}
 
@@ -356,6 +356,8 @@ func Match(p, t *Term, env map[string]*Term) bool {
 				return !found
 			})
 			return found
+		case "non": // does not match the argument pattern
+			return !Match(p.Args[0], t, copyEnv(env))
 		case "alt":
 			for _, a := range p.Args {
 				if Match(a, t, env) {
